@@ -105,7 +105,7 @@ def _strategy(tier):
         int_scalars=st.booleans(),
         # a long gain vector (n up to 2048), drawn from a seeded generator
         long=st.tuples(st.integers(0, 29),
-                       st.sampled_from([33, 64, 300, 1100, 2048]),
+                       st.sampled_from([33, 64, 300, 1100, 2048, 6000]),
                        seeds).map(lambda t: [t[1], t[2]] if t[0] == 17
                                   else None),
         pt_switch=st.one_of(st.none(), st.none(), st.none(), st.tuples(
